@@ -14,6 +14,7 @@ mod o_rename;
 mod o_reader;
 mod o_parsers;
 mod o_arith;
+mod o_mgu;
 
 use std::panic;
 
@@ -41,6 +42,7 @@ fn oracles() -> Vec<(&'static str, Enumerate, Check)> {
         ("c21_load", o_reader::enum_load, o_reader::check_load),
         ("c18_parsers", o_parsers::enum_strings, o_parsers::check_string),
         ("c12_arith", o_arith::enum_arith, o_arith::check_arith),
+        ("c06_mgu", o_mgu::enum_mgu, o_mgu::check_mgu),
         ("c06_keeps", o_unify::enum_keeps, o_unify::check_keeps),
     ]
 }
